@@ -17,6 +17,12 @@ type c08Add struct {
 	Sub c08Sub `command:"sub" alias:"s1" alias:"s2"`
 	Oth c08Oth `command:"oth"`
 }
+// the intermediate command is executable: that does not excuse a missing
+// required subcommand
+var c08AddRuns int
+
+func (c *c08Add) Execute(args []string) error { c08AddRuns++; return nil }
+
 type c08Rm struct {
 	R bool `short:"r"`
 }
@@ -96,6 +102,7 @@ func H_C08_tree(v *V) {
 		argv = append(argv, w)
 		argv = append(argv, slots[i+1]...)
 	}
+	c08AddRuns = 0
 	_, err := p.ParseArgs(argv)
 	vObsErr(v, err)
 	t, typed := vErrType(err)
@@ -108,6 +115,7 @@ func H_C08_tree(v *V) {
 	if !complete {
 		v.Reach("incomplete")
 		v.Assert(err != nil && typed && t == ErrCommandRequired, "a required command that is not given fails with ErrCommandRequired")
+		v.Assert(c08AddRuns == 0, "an executable command with a missing required subcommand is not run")
 		return
 	}
 	v.Assert(err == nil, "a complete command path with in-scope options parses")
